@@ -365,31 +365,41 @@ Facts192 == {[h79 |-> a] : a \in BOOLEAN}
 Expected192(f) == IF ~f.h79 THEN {"C25"} ELSE {}
 Build192(f) == <<"20", "21", "11S">> \o (IF f.h79 THEN <<"79">> ELSE <<>>)
 
+(* ================================ MT200 ================================== *)
+(* no network rule in the standard; the library reports T80 (payments reject / return guidelines apply)   *)
+(* whenever a line of field 72 starts with the code word REJT or RETN, in any case, with or without the   *)
+(* closing slash                                                                                          *)
+Facts200 == {[f72 |-> a] : a \in {"none", "plain", "REJT", "RETN", "lower", "open", "second", "inline"}}
+Expected200(f) == IF f.f72 \in {"REJT", "RETN", "lower", "open", "second"} THEN {"T80"} ELSE {}
+Build200(f) == <<"20", "32A=USD:100", "57A">> \o (IF f.f72 = "none" THEN <<>> ELSE <<"72=" \o f.f72>>)
+
 (* ===================== types without network rules ======================= *)
-NoRule == {"111", "112", "190", "191", "199", "290", "291", "299", "900"}
+NoRule == {"111", "112", "190", "191", "196", "199", "290", "291", "292", "296", "299", "900"}
 Minimal(t) == CASE t \in {"111"} -> <<"20", "21", "30", "32A=USD:100">>
                 [] t = "112" -> <<"20", "21", "30", "32A=USD:100", "76">>
                 [] t \in {"190", "290"} -> <<"20", "21", "25", "32C">>  \o <<"71B">>
                 [] t \in {"191", "291"} -> <<"20", "21", "32B=USD:100", "71B">>
                 [] t \in {"199", "299"} -> <<"20", "79">>
+                [] t \in {"196", "296"} -> <<"20", "21", "76">>      \* C1 (C31) is documented as not checkable
+                [] t = "292" -> <<"20", "21", "11S", "79">>          \* without 79 the parser already refuses
                 [] t = "900" -> <<"20", "21", "25", "32A=USD:100">>
 
 (* ================================ dispatch =============================== *)
-Ruled == {"101", "104", "107", "103", "110", "202", "204", "205", "210", "910", "920", "935", "940", "941", "942", "950", "192"}
+Ruled == {"101", "104", "107", "103", "110", "202", "204", "205", "210", "910", "920", "935", "940", "941", "942", "950", "192", "200"}
 Facts(t) == CASE t = "101" -> Facts101 [] t = "104" -> Facts104 [] t = "107" -> Facts107 [] t = "103" -> Facts103 [] t = "110" -> Facts110 [] t = "202" -> Facts202 [] t = "204" -> Facts204
               [] t = "205" -> Facts205 [] t = "210" -> Facts210 [] t = "910" -> Facts910 [] t = "920" -> Facts920
               [] t = "935" -> Facts935 [] t = "940" -> Facts940 [] t = "941" -> Facts941 [] t = "942" -> Facts942
-              [] t = "950" -> Facts950 [] t = "192" -> Facts192 [] OTHER -> {[none |-> TRUE]}
+              [] t = "950" -> Facts950 [] t = "192" -> Facts192 [] t = "200" -> Facts200 [] OTHER -> {[none |-> TRUE]}
 Expected(t, f) == CASE t = "101" -> Expected101(f) [] t = "104" -> Expected104(f) [] t = "107" -> Expected107(f) [] t = "103" -> Expected103(f) [] t = "110" -> Expected110(f) [] t = "202" -> Expected202(f)
               [] t = "204" -> Expected204(f) [] t = "205" -> Expected205(f) [] t = "210" -> Expected210(f)
               [] t = "910" -> Expected910(f) [] t = "920" -> Expected920(f) [] t = "935" -> Expected935(f)
               [] t = "940" -> Expected940(f) [] t = "941" -> Expected941(f) [] t = "942" -> Expected942(f)
-              [] t = "950" -> Expected950(f) [] t = "192" -> Expected192(f) [] OTHER -> {}
+              [] t = "950" -> Expected950(f) [] t = "192" -> Expected192(f) [] t = "200" -> Expected200(f) [] OTHER -> {}
 Build(t, f) == CASE t = "101" -> Build101(f) [] t = "104" -> Build104(f) [] t = "107" -> Build107(f) [] t = "103" -> Build103(f) [] t = "110" -> Build110(f) [] t = "202" -> Build202(f)
               [] t = "204" -> Build204(f) [] t = "205" -> Build205(f) [] t = "210" -> Build210(f)
               [] t = "910" -> Build910(f) [] t = "920" -> Build920(f) [] t = "935" -> Build935(f)
               [] t = "940" -> Build940(f) [] t = "941" -> Build941(f) [] t = "942" -> Build942(f)
-              [] t = "950" -> Build950(f) [] t = "192" -> Build192(f) [] OTHER -> Minimal(t)
+              [] t = "950" -> Build950(f) [] t = "192" -> Build192(f) [] t = "200" -> Build200(f) [] OTHER -> Minimal(t)
 
 VARIABLES mt, facts
 vars == <<mt, facts>>
@@ -402,7 +412,7 @@ RulesTotal == Expected(mt, facts) \subseteq {"D75", "E01", "E02", "E06", "C81", 
                                              "E18", "E44", "E45", "T36", "T48", "D97", "E46", "D98", "D67", "T10", "C68",
                                              "C01", "C06", "T88", "C22", "C23", "C40", "T14", "C27", "C25",
                                              "D54", "D60", "D61", "D62", "D68", "D64", "D65", "T47", "D66", "D86", "D73", "D77",
-                                             "C82", "D79", "D21", "D81", "D80", "C75", "C76", "C96"}
+                                             "C82", "D79", "D21", "D81", "D80", "C75", "C76", "C96", "T80"}
 BaselineValid == Expected103(Base103) = {} /\ Expected101(Base101) = {} /\ Expected107(Base107) = {} /\ Expected104(Base104) = {}
 
 Emit == EmitCases => PrintT(ToJson([mt |-> mt, toks |-> Build(mt, facts), exp |-> Expected(mt, facts), facts |-> facts]))
